@@ -367,6 +367,136 @@ SCHED_PARTS = {"part": "P{{ x }}", "other": "O"}
 SCHED_JOBS = ["{% include 'part' %}", "{% render 'part' %}", "{% include 'other' %}{% include 'part' %}", "{% include 'missing' %}", "{% include 'part' %}{{ 1 | divided_by: 0 }}"]
 
 
+ESC_ATOMS = ["a", " ", "\\n", "\\\\", "\\'", '\\"', "\\uD83D", "\\uDE00", "\\u00e9", "\\u12", "\\u", "\\x", "\\", "${", "$", "}", "\\$", "\\/", "\\u0000", "\\u0007"]
+
+
+def escape_sources(tier: str) -> list[str]:
+    """String literals made of every word of <= 2 (quick) / 3 atoms over the escape alphabet (complete and truncated
+    escape sequences, each half of a surrogate pair, interpolation openers), in both quote styles, as an output, a
+    filter argument, a bracketed path segment and the tail of a template string."""
+    out: list[str] = []
+    k = 2 if tier == "quick" else 3
+    words = [""]
+    for n_ in range(1, k + 1):
+        words += ["".join(w) for w in itertools.product(ESC_ATOMS, repeat=n_)]
+    if tier == "quick":
+        # all words of three atoms that END in one of the surrogate halves or a truncated escape
+        words += ["".join(w) + t for w in itertools.product(ESC_ATOMS[:8], repeat=2) for t in ("\\uD83D", "\\uDE00", "\\u12", "\\")]
+    for w in words:
+        for q in ("'", '"'):
+            lit = q + w + q
+            out += ["{{ " + lit + " }}", "{{ x | append: " + lit + " }}", "{{ b[" + lit + "] }}", "{% assign s = " + q + "${x}" + w + q + " %}{{ s }}"]
+    return out
+
+
+# ------------------------------------------------------------------ histories on a caching file-system loader
+
+FS_RENDERS = [("render", t, m) for t in ("include", "render", "top") for m in ("sync", "async")]
+FS_FAULTS = [("fault", f) for f in ("delete", "dir2file", "loop", "file2dir", "dangling", "restore")]
+
+
+def _rm(path: str) -> None:
+    import os
+    import shutil
+
+    if os.path.islink(path) or os.path.isfile(path):
+        os.remove(path)
+    elif os.path.isdir(path):
+        shutil.rmtree(path)
+
+
+def _fs_fault(root: str, what: str) -> None:
+    import os
+
+    d = os.path.join(root, "partials")
+    f = os.path.join(d, "card.liquid")
+    if what == "restore":
+        _rm(d)
+        os.mkdir(d)
+        with open(f, "w", encoding="utf-8") as fd:
+            fd.write("[card]")
+        return
+    if what == "dir2file":
+        _rm(d)
+        with open(d, "w", encoding="utf-8") as fd:
+            fd.write("not a directory")
+        return
+    if not os.path.isdir(d) or os.path.islink(d):
+        return  # the directory is gone already: the file-level faults have nothing to act on
+    _rm(f)
+    if what == "loop":
+        os.symlink("card.liquid", f)  # points at itself
+    elif what == "file2dir":
+        os.mkdir(f)
+    elif what == "dangling":
+        os.symlink("nowhere.liquid", f)
+
+
+def fs_histories(tier: str) -> list[tuple]:
+    """Every history of <= 3 (quick) / 4 operations that ends in a render."""
+    ops = FS_RENDERS + FS_FAULTS
+    out = []
+    for n_ in range(1, (3 if tier == "quick" else 4) + 1):
+        for h in itertools.product(ops, repeat=n_):
+            if h[-1][0] == "render" and any(o[0] == "fault" for o in h):
+                out.append(h)
+    return out
+
+
+def check_fs_history(hist: tuple, res: ShardResult | None) -> list[tuple[str, Any, Any, Any]]:
+    """A cached template whose file changes kind between two loads: every load returns or raises a LiquidError."""
+    import asyncio
+    import os
+
+    from liquid2 import CachingFileSystemLoader
+
+    from mc import seams
+
+    out: list[tuple[str, Any, Any, Any]] = []
+    root = seams.sandbox("verif_c02h_")
+    try:
+        seams.write_tree(root, {"page_include.liquid": "{% include 'partials/card.liquid' %}", "page_render.liquid": "{% render 'partials/card.liquid' %}"})
+        _fs_fault(root, "restore")
+        env = impl.make_env(limits=LIMITS, loader=CachingFileSystemLoader(root))
+        for i, op in enumerate(hist):
+            if op[0] == "fault":
+                _fs_fault(root, op[1])
+                continue
+            _, tag, mode = op
+            name = "partials/card.liquid" if tag == "top" else f"page_{tag}.liquid"
+            try:
+                with cpu_budget(3.0):
+                    if mode == "sync":
+                        env.get_template(name).render()
+                    else:
+                        async def go() -> str:
+                            return await (await env.get_template_async(name)).render_async()
+
+                        asyncio.run(go())
+                if res is not None:
+                    res.outcomes.add(h64("ok"))
+            except LiquidError as e:
+                bad = printable_error(e)
+                if res is not None:
+                    res.outcomes.add(h64(type(e).__name__))
+                if bad:
+                    out.append((f"C02:fs-history:unprintable-error:{bad}", {"history": [list(o) for o in hist], "step": i}, "printable", bad))
+            except TimeBudget:
+                out.append(("C02:fs-history:cpu-budget-exceeded", {"history": [list(o) for o in hist], "step": i}, "returns in time", "budget exceeded"))
+            except Exception as e:  # noqa: BLE001
+                out.append((f"C02:fs-history:foreign-exception:{type(e).__name__}", {"history": [list(o) for o in hist], "step": i}, "returns or raises LiquidError", f"{type(e).__name__}: {e}"[:200]))
+                break
+            if res is not None:
+                res.evaluations += 1
+    finally:
+        import shutil
+
+        shutil.rmtree(root, ignore_errors=True)
+    if res is not None:
+        res.nontrivial.add(h64(repr(hist)))
+    return out
+
+
 def _sched_env(stale: bool) -> Any:
     """A caching loader whose freshness check and source lookup really suspend; optionally with 'part' cached and stale."""
     import asyncio
@@ -460,7 +590,7 @@ def _prepare(tier: str) -> None:
         corp_m = corp
         inserts = c17.SIGMA
     corp = list(corp) + HUGE_SOURCES + REGRESSION_SOURCES
-    _SP.update(tier=tier, corpus=corp, corp_m=corp_m, inserts=inserts, pumps=pumps())
+    _SP.update(tier=tier, corpus=corp, corp_m=corp_m, inserts=inserts, pumps=pumps(), escapes=escape_sources(tier))
 
 
 def plan(tier: str, seed: int):
@@ -492,6 +622,13 @@ def plan(tier: str, seed: int):
     for lo, hi in chunks(len(_SP["pumps"]), 64):
         shards.append(("pump", tier, lo, hi))
     total += len(_SP["pumps"])
+    for lo, hi in chunks(len(_SP["escapes"]), 32):
+        shards.append(("escapes", tier, lo, hi))
+    total += len(_SP["escapes"])
+    _SP["fsh"] = fs_histories(tier)
+    for lo, hi in chunks(len(_SP["fsh"]), 32):
+        shards.append(("fsh", tier, lo, hi))
+    total += len(_SP["fsh"])
     k_tasks = 2 if tier == "quick" else 3
     combos = list(itertools.combinations_with_replacement(range(len(SCHED_JOBS)), k_tasks))
     for c in combos:
@@ -499,12 +636,12 @@ def plan(tier: str, seed: int):
             shards.append(("sched", tier, c, stale))
     total += 2 * len(combos)
     # long-running shards first (value sites contain the time-outs, pumps the 10 s budgets)
-    order = {"site": 0, "pump": 1, "corpus": 2, "mutants": 3, "sigma": 4, "sched": 2}
+    order = {"site": 0, "pump": 1, "corpus": 2, "mutants": 3, "sigma": 4, "sched": 2, "escapes": 3, "fsh": 2}
     shards.sort(key=lambda sh: order[sh[0]])
     meta = {
         "space_size": total,
         "subspaces": {"sigma": sum((m**kk) * (1 if kk <= 1 else 2) for kk in range(k + 1)), "corpus": len(_SP["corpus"]), "mutants": nm, "concurrent-render-sets": 2 * len(combos),
-                      "value-sites": len(sites), "values": len(VALL), "pumps": len(_SP["pumps"])},
+                      "value-sites": len(sites), "values": len(VALL), "pumps": len(_SP["pumps"]), "escape-literals": len(_SP["escapes"]), "file-system-histories": len(_SP["fsh"])},
         "bounds": {"sigma_len": k, "value_depth": 2 if tier == "quick" else 3, "pump_k": 3000, "limits": LIMITS},
     }
     return shards, meta
@@ -539,6 +676,15 @@ def run_shard(shard) -> ShardResult:
             res.violation(sig, {"kind": "site", "tier": tier, **case}, exp, obs, repro=_repro_site(case))
         if shard[2] % 17 == 0:
             res.samples.append({"site": site, "values": "all of V u V+"})
+    elif kind == "fsh":
+        if "fsh" not in _SP:
+            _SP["fsh"] = fs_histories(tier)
+        for h in _SP["fsh"][shard[2] : shard[3]]:
+            res.cases += 1
+            for sig, case, exp, obs in check_fs_history(h, res):
+                res.violation(sig, {"kind": "fsh", "tier": tier, **case}, exp, obs)
+    elif kind == "escapes":
+        _sources(res, _SP["escapes"][shard[2] : shard[3]], env_names=("default",), datasets=DATASETS[:1])
     elif kind == "sched":
         res.cases += 1
         for sig, case, exp, obs in check_schedule(shard[2], shard[3], res):
@@ -571,6 +717,9 @@ def replay(case: dict[str, Any]) -> list[dict[str, Any]]:
         budget = 10.0 if len(case["source"]) > 2000 else 3.0
         for sig, extra, obs in run_source(case["env"], case["source"], DATASETS, None, budget):
             res.violation(sig, case, "returns or raises a printable LiquidError in time", obs)
+    elif case["kind"] == "fsh":
+        for sig, c, exp, obs in check_fs_history(tuple(tuple(o) for o in case["history"]), None):
+            res.violation(sig, case, exp, obs)
     elif case["kind"] == "sched":
         for sig, c, exp, obs in check_schedule(tuple(case["jobs"]), case["stale"], None):
             res.violation(sig, case, exp, obs)
